@@ -24,7 +24,14 @@ Bad(e) ==
     [] e.op = "union"  -> Failed({<<"C20:union", ObUnion(e.c, e.d, e.r, Reps({e.c, e.d} \cup RSet(e.r)))>>})
     [] e.op = "covers" -> Failed({<<"C20:covers", ObCovers(e.c, e.d, e.r, Reps({e.c, e.d}))>>})
     [] e.op = "cmp"    -> Failed({<<"C20:partial_cmp", ObCmp(e.c, e.d, e.r, Reps({e.c, e.d}))>>,
-                                  <<"C20:eq", e.eq = SameSet(e.c, e.d, Reps({e.c, e.d}))>>})
+                                  <<"C20:eq", e.eq = SameSet(e.c, e.d, Reps({e.c, e.d}))>>,
+                                  \* <, <=, >, >=, != are the relations of the same partial order
+                                  <<"C20:comparison_operators",
+                                     LET D == Reps({e.c, e.d})
+                                         same == SameSet(e.c, e.d, D)
+                                         lt == ~same /\ AllBefore(e.c, e.d, D)
+                                         gt == ~same /\ AllBefore(e.d, e.c, D)
+                                     IN e.ops = <<lt, lt \/ same, gt, gt \/ same, ~same>>>>})
     [] e.op = "interlist" ->
          Failed({<<"C20:inter_list", ObInterList(e.cs, e.r, Reps(ToSet(e.cs) \cup RSet(e.r)))>>})
     [] OTHER -> {"C20:unknown_event"}
